@@ -42,6 +42,14 @@ func init() {
 		"\t\th.buf[h.bufOffset] = ' '\n\t\th.bufOffset++\n", "\t\th.buf[h.bufOffset] = ' '\n", "hex:buf:put")
 	add("c10-ascii-newline-not-counted", "C10.writer", ascGo,
 		"\t\t\th.buf[h.bufOffset] = '\\n'\n\t\t\th.bufOffset++\n", "\t\t\th.buf[h.bufOffset] = '\\n'\n", "ascii:buf:put")
+	add("c10-hex-grow-drops-row", "C10.writer", hexGo,
+		"\t\t\th.buf = append(h.buf, make([]byte, need-len(h.buf))...)\n", "\t\t\th.buf = make([]byte, need*2)\n", "hex:buf:grow:keep")
+	add("c10-ascii-grow-copies-tail", "C10.writer", ascGo,
+		"\t\t\th.buf = append(h.buf, make([]byte, need-len(h.buf))...)\n", "\t\t\tnb := make([]byte, need*2)\n\t\t\tcopy(nb, h.buf[h.bufOffset:])\n\t\t\th.buf = nb\n", "ascii:buf:grow:keep")
+	add("c10-hex-grow-one-short", "C10.writer", hexGo,
+		"\t\t\th.buf = append(h.buf, make([]byte, need-len(h.buf))...)\n", "\t\t\th.buf = append(h.buf, make([]byte, need-len(h.buf)-1)...)\n", "hex:buf:grow:room")
+	add("c10-ascii-grow-late", "C10.writer", ascGo,
+		"if need := h.bufOffset + len(s) + 1; need > len(h.buf) {", "if need := h.bufOffset + len(s) + 1; need > len(h.buf)+1 {", "ascii:buf:grow:room")
 	// C10.colwriter
 	add("c10-flushline-last-row", "C10.colwriter", colGo, "\tif lineNr < len(c.lines) {", "\tif lineNr+1 < len(c.lines) {", "flushline:exists")
 	add("c10-line-slice-absolute", "C10.colwriter", colGo,
